@@ -12,6 +12,8 @@
 #define _GNU_SOURCE
 #include "hcommon.h"
 #include <carquet/carquet.h>
+/* declared in carquet.h but (in the pinned tree) defined nowhere: keep the driver linkable */
+#pragma weak carquet_reader_open_file
 #include <unistd.h>
 #include <errno.h>
 #include <fcntl.h>
@@ -272,6 +274,7 @@ static struct {
     uint8_t* img; size_t img_len; uint8_t* img_orig; size_t img_orig_len;
     /* reader */
     carquet_reader_t* reader; uint8_t* rbuf;   /* exact-size copy handed to open_buffer */
+    FILE* rfile;                               /* stream handed to carquet_reader_open_file (caller-owned) */
     crslot_t cr[MAXCR];
     carquet_batch_reader_t* br; int br_ncols; int br_cols[MAXCOLS];
     int32_t* br_idx; char** br_names; int br_nnames;
@@ -603,6 +606,7 @@ static void reader_close_all(void) {
     br_free_all();
     if (G.reader) { carquet_reader_close(G.reader); G.reader = NULL; }
     free(G.rbuf); G.rbuf = NULL;
+    if (G.rfile) { fclose(G.rfile); G.rfile = NULL; }
 }
 
 /* i-th leaf of the reader's schema through the public accessors */
@@ -617,7 +621,7 @@ static const carquet_schema_node_t* leaf_node(const carquet_schema_t* sc, int co
     return NULL;
 }
 
-/* ROPEN stdio|mmap <verify 0|1> <path> [threads=n] [bufsize=n] [NULLOPTS]
+/* ROPEN stdio|mmap|fileptr <verify 0|1> <path> [threads=n] [bufsize=n] [NULLOPTS]
  * ROPEN buffer <verify 0|1> [threads=n]                      (reads the current image) */
 static void cmd_ropen(void) {
     if (NT < 3) { puts("open BAD"); return; }
@@ -637,6 +641,14 @@ static void cmd_ropen(void) {
         ARM();
         G.reader = carquet_reader_open_buffer(G.rbuf, G.img_len, nullopts ? NULL : &ro, &e);
         DISARM();
+    } else if (!strcmp(T[1], "fileptr") && NT >= 4) {      /* carquet_reader_open_file on a FILE* the driver owns */
+        if (!carquet_reader_open_file) { puts("open SKIP carquet_reader_open_file-is-declared-but-not-defined"); return; }
+        G.rfile = fopen(T[3], "rb");
+        if (!G.rfile) { puts("open BAD cannot-fopen"); return; }
+        ARM();
+        G.reader = carquet_reader_open_file(G.rfile, nullopts ? NULL : &ro, &e);
+        DISARM();
+        if (!G.reader) { fclose(G.rfile); G.rfile = NULL; }
     } else if ((!strcmp(T[1], "stdio") || !strcmp(T[1], "mmap")) && NT >= 4) {
         ro.use_mmap = !strcmp(T[1], "mmap");
         ARM();
